@@ -29,6 +29,7 @@
 //	          (before / around signal.Notify: the default action may still kill the process)
 //	hup/quit  SIGHUP / SIGQUIT mid-run: cli.go does not trap them
 //	full      the result destination is /dev/full: every write fails with ENOSPC; no signal
+//	nodir     the result destination lies in a directory that does not exist: it cannot be opened; no signal
 //	grpc      the grpc gun against an in-process grpc target (reflection), one signal
 //	mixed     two pools with DIFFERENT aggregator kinds (phout and jsonlines), one signal
 //	backpr    queue of 16 + 4 KiB buffer + a pipe slower than the load: the aggregator sits in write(2), instances
@@ -214,6 +215,9 @@ func sigRunOne(cfg sigRun, bin, target string, w *vt.Writer) {
 		out := filepath.Join(dir, fmt.Sprintf("result%d.out", j))
 		if cfg.scen == "full" {
 			out = "/dev/full"
+		}
+		if cfg.scen == "nodir" {
+			out = filepath.Join(dir, "no", "such", "dir", "result.out") // cannot be created
 		}
 		outs = append(outs, out)
 		kind := cfg.kind
@@ -520,7 +524,7 @@ func aggSigMain(args []string) {
 	runs := fs.Int("runs", 12, "runs")
 	par := fs.Int("par", 4, "processes in flight")
 	failRuns := fs.Int("fail", 0, "extra runs in which one pool fails by itself (CLI error path), most with one signal while the tasks are awaited")
-	scenRuns := fs.Int("scen", 0, "extra runs of the scenarios second / timeout / startup / hup / quit / full / grpc / mixed / backpr (round robin)")
+	scenRuns := fs.Int("scen", 0, "extra runs of the scenarios second / timeout / startup / hup / quit / full / nodir / grpc / mixed / backpr (round robin)")
 	long := fs.Int("long", 0, "extra timeout runs with SIGINT (30 s each)")
 	fs.Parse(args)
 	seed := aggSeed()
@@ -587,11 +591,12 @@ func aggSigMain(args []string) {
 		cfgs = append(cfgs, cfg)
 	}
 	r2 := rand.New(rand.NewSource(seed*104729 + 7))
-	scens := []string{"timeout", "second", "startup", "full", "hup", "grpc", "mixed", "backpr", "quit", "startup", "second", "full"}
+	// the kind alternates with the position (and from round to round): scenarios listed twice get both kinds in one round
+	scens := []string{"timeout", "second", "startup", "full", "hup", "grpc", "mixed", "backpr", "quit", "startup", "full", "nodir", "second"}
 	for n := 0; n < *scenRuns+*long; n++ {
 		cfg := sigRun{run: *runs + *failRuns + n + 1, rps: 3000 + 1000*r2.Intn(3), inst: 4 + r2.Intn(6), pools: 1, grpcAddr: grpcAddr}
 		cfg.scen = scens[n%len(scens)]
-		cfg.kind = []string{"vphout", "vjsonlines"}[(n/len(scens)+n)%2]
+		cfg.kind = []string{"vphout", "vjsonlines"}[(n/len(scens)+n%len(scens))%2]
 		cfg.sig = []string{"INT", "TERM"}[(n/2)%2]
 		cfg.afterMs = 100 + r2.Intn(900)
 		if n >= *scenRuns {
@@ -618,7 +623,7 @@ func aggSigMain(args []string) {
 			cfg.sig = "HUP"
 		case "quit":
 			cfg.sig = "QUIT"
-		case "full":
+		case "full", "nodir":
 			cfg.sig = "none"
 			cfg.afterMs = 200 + r2.Intn(400)
 		case "mixed":
